@@ -26,7 +26,8 @@ SCENARIOS = [
 OUTCOMES = ['accept', 'false']
 
 
-def scenario_for(sc, always_connect, outcome, suspend_sends):
+def scenario_for(sc, always_connect, outcome, suspend_sends,
+                 bystander=False):
     name, connected0, frames, actors = sc
 
     def scenario(loop):
@@ -50,6 +51,12 @@ def scenario_for(sc, always_connect, outcome, suspend_sends):
             sio.on('connect', ch, namespace=ns)
             sio.on('disconnect', dh, namespace=ns)
             sio.on('ev', ev, namespace=ns)
+        if bystander:
+            # another client stays connected to '/' throughout: "fresh"
+            # then means "as if only the bystander had ever been there"
+            tb = w.new_transport()
+            w.recv_packet(tb, 0, '/')
+            w.drain_all()
         fresh = c11.generic_snapshot(w)
         t = w.new_transport()
         sock = w.transports[t]
@@ -114,15 +121,20 @@ def scenario_for(sc, always_connect, outcome, suspend_sends):
             snap = c11.generic_snapshot(w)
             diff = {k: snap.get(k) for k in set(snap) | set(fresh)
                     if snap.get(k) != fresh.get(k)}
+            if bystander:
+                diff = {k: (v, fresh.get(k)) for k, v in diff.items()}
             return {'stuck': False, 'diff': diff,
                     'connect_while_closing': lost['connect_while_closing'],
-                    'namespaces': list(sio.manager.get_namespaces())}
+                    'namespaces': [] if bystander else
+                    list(sio.manager.get_namespaces())}
         return finish
     return scenario
 
 
 def judge(sc, always_connect, outcome, out):
     what = f'{sc[0]} (always_connect={always_connect}, handler={outcome})'
+    if any(isinstance(v, tuple) for v in out.get('diff', {}).values()):
+        what += ' with a bystander connected'
     if out.get('stuck'):
         return [('C11/sched-stuck', f'{what}: {out}')]
     v = []
@@ -142,7 +154,7 @@ def judge(sc, always_connect, outcome, out):
 
 
 def job(args):
-    si, ac, outcome, ss = args
+    si, ac, outcome, ss, by = args
     common.setup_imports()
     sc = SCENARIOS[si]
     viols = []
@@ -154,24 +166,24 @@ def job(args):
             if len(viols) < 3:
                 viols.append((key, msg, {'replay': {
                     'module': 'mc.checks.c11_sched', 'func': 'replay',
-                    'args': [si, ac, outcome, ss,
+                    'args': [si, ac, outcome, ss, by,
                              [c[1] for c in choices]]}}))
-    st = e2.explore(scenario_for(sc, ac, outcome, ss), on)
+    st = e2.explore(scenario_for(sc, ac, outcome, ss, by), on)
     return st, viols, len(outs)
 
 
-def replay(si, ac, outcome, ss, prefix):
+def replay(si, ac, outcome, ss, by, prefix):
     common.setup_imports()
     sc = SCENARIOS[si]
-    choices, out = e2.run_one(scenario_for(sc, ac, outcome, ss),
+    choices, out = e2.run_one(scenario_for(sc, ac, outcome, ss, by),
                               list(prefix))
     return judge(sc, ac, outcome, out)
 
 
 def run(tier, seed, result):
-    jobs = [(si, ac, outcome, ss) for si in range(len(SCENARIOS))
+    jobs = [(si, ac, outcome, ss, by) for si in range(len(SCENARIOS))
             for ac in (False, True) for outcome in OUTCOMES
-            for ss in (True, False)]
+            for ss in (True, False) for by in (False, True)]
     total = 0
     outcomes = 0
     for st, viols, n in pmap(job, jobs):
